@@ -3,7 +3,7 @@ from engine import core
 
 LEVEL = "model_checking"
 
-SINGLE = ["min-x", "max-x", "min-negx", "max-negx", "min-x+y", "max-x+y", "minmax", "maxmin", "maxsmt"]
+SINGLE = ["min-x", "max-x", "min-negx", "max-negx", "min-x+y", "max-x+y", "minmax", "maxmin", "maxsmt", "maxsmt-inc"]
 MULTI = ["two", "two-same", "two-sum"]
 
 
@@ -20,7 +20,7 @@ def jobs_for(tier):
     singles = ["min-x", "max-x", "min-negx", "max-x+y", "minmax", "maxsmt"] if tier == "quick" else SINGLE
     multis = ["two", "two-same"] if tier == "quick" else MULTI
     jobs = []
-    quick_sel = {"bvu": (["min-x", "max-x"], []), "int": (["min-x", "max-x+y", "maxsmt"], ["two"])}
+    quick_sel = {"bvu": (["min-x", "max-x"], []), "int": (["min-x", "max-x+y", "maxsmt", "maxsmt-inc"], ["two"])}
     for srt, w in sorts:
         if tier == "quick" and srt in quick_sel:
             singles, multis = quick_sel[srt]
